@@ -1511,13 +1511,15 @@ func (m *repoManager) setNodeNote(uuid dvid.UUID, note string) error {
 		return ErrInvalidVersion
 	}
 
-	node.Lock()
-	node.note = note
+	// Lock the repo before the node, the order used everywhere else (saving the repo read-locks
+	// the repo and then each node): the opposite order deadlocked against a concurrent save.
 	t := time.Now()
 	r.Lock()
+	node.Lock()
+	node.note = note
 	r.updated, node.updated = t, t
-	r.Unlock()
 	node.Unlock()
+	r.Unlock()
 	return r.save()
 }
 
